@@ -32,6 +32,21 @@ def install(tokens=False, digest="const", bins="const", caches="bypass"):
     # ---- S1 / S8: formatting of symbolic non-string values
     _orig_format = _core._PATCH_REGISTRATIONS[format]
 
+    def _srepr(obj, use_str=False):
+        """rendering of containers/objects without handing symbolic members to C-level repr (S10)"""
+        with NoTracing():
+            sym = isinstance(obj, _b.SymbolicValue) and not isinstance(obj, _b.AnySymbolicStr)
+            if sym:
+                if _state["tokens"] and isinstance(obj, _b.SymbolicInt):
+                    return token_of(obj)
+                return "<sym>"
+            t = type(obj)
+        if t is list:
+            return "[" + ", ".join([_srepr(x) for x in obj]) + "]"
+        if t is tuple:
+            return "(" + ", ".join([_srepr(x) for x in obj]) + ("," if len(obj) == 1 else "") + ")"
+        return str(obj) if use_str else repr(obj)
+
     def _fmt_stub(obj, format_spec=""):
         with NoTracing():
             sym = isinstance(obj, _b.SymbolicValue) and not isinstance(obj, _b.AnySymbolicStr)
@@ -39,7 +54,23 @@ def install(tokens=False, digest="const", bins="const", caches="bypass"):
                 if _state["tokens"] and isinstance(obj, _b.SymbolicInt):
                     return token_of(obj)
                 return "<sym>"
+            plain = isinstance(obj, (str, int, float, bool, type(None), _b.AnySymbolicStr))
+        if not plain and format_spec == "":
+            # user objects / containers: render through their own (traced) __str__ instead of deep-realising them
+            return _srepr(obj, use_str=True)
         return _orig_format(obj, format_spec)
+
+    # no premature realisation of int arguments (CrossHair heuristic; pure waste for exhaustive runs)
+    from crosshair import statespace as _ss
+
+    _orig_fork_parallel = _ss.StateSpace.fork_parallel
+
+    def _fork_parallel(self, false_probability, desc=""):
+        if desc.startswith("premature realize"):
+            return False
+        return _orig_fork_parallel(self, false_probability, desc)
+
+    _ss.StateSpace.fork_parallel = _fork_parallel
 
     _core._PATCH_REGISTRATIONS[format] = _fmt_stub
 
